@@ -339,20 +339,44 @@ fn main() {
         t
     });
 
-    // S4: zero divisors at scales {0, +-5} must panic in every form
-    run.seq("S4 zero divisors", || {
+    // S4: zero divisors must panic in every form: every zero representation of the gap alphabet (both directions:
+    // the dividend's scale above and below the zero's) x dividends of every size class (zero, one digit, word limits,
+    // long), so that no shortcut that sizes the operands up before dividing can skip the division
+    let zgaps: Vec<i128> = {
+        let mut g: Vec<i128> = gaps().into_iter().filter(|&g| g <= 700).map(|g| g as i128).collect();
+        g.extend([1000, 5000, 9440, 10_001]);
+        g
+    };
+    let zdiv: Vec<Dec> = {
+        let mut v = vec![Dec::new(5, 0), Dec::new(0, 0), Dec::new(-125, 2), Dec::new(7, -3), Dec::new(1, 20), Dec::new(-1, -25), Dec::new(0, 30)];
+        for w in word_limit_ints().into_iter().step_by(7) {
+            v.push(Dec { n: w.clone(), s: 3 });
+        }
+        for (_, n) in long_ints(&[40, 300], run.seed()) {
+            v.push(Dec { n: n.clone(), s: 0 });
+            v.push(Dec { n: -n, s: 120 });
+        }
+        v
+    };
+    run.bound("S4_zero_divisor_gaps", zgaps.len() * 2);
+    run.bound("S4_dividends", zdiv.len());
+    run.par("S4 zero divisors", zdiv.len(), |i| {
         let mut t = Tally::default();
-        for a in [Dec::new(5, 0), Dec::new(0, 0), Dec::new(-125, 2), Dec::new(7, -3)] {
-            for zs in [0i128, 5, -5] {
+        let a = &zdiv[i];
+        let xa = bd(a);
+        for &g in zgaps.iter() {
+            for zs in [a.s - g, a.s + g] {
                 let z = Dec::new(0, zs);
                 t.states += 1;
                 t.nontrivial += 5;
-                for v in check(&fs, &a, &z, &bd(&a), &bd(&z), &mut t) {
+                for v in check(&fs, a, &z, &xa, &bd(&z), &mut t) {
                     run.report(v);
                 }
             }
         }
-        run.sample(|| json!({"form": "V%=R", "a": "5e0", "b": "0e-5"}));
+        if i == 0 {
+            run.sample(|| json!({"form": "V%=R", "a": "5e0", "b": "0e-5"}));
+        }
         t
     });
     let _ = BigInt::zero();
